@@ -136,6 +136,8 @@ def as_arr(v):
 
 def to_kind(v, kind):
     """Element coercion when stored into an array of the given kind."""
+    if type(v).__name__ == "NanReal":
+        return v
     if kind == "f":
         if isinstance(v, bool):
             return Fraction(int(v))
@@ -586,3 +588,50 @@ def eye(n, kind="f"):
 
 def copy(x):
     return SArr(x.a.copy(), x.kind)
+
+
+# ----------------------------------------------------------------------------
+# guarded arrays: a stack of rows each of which is present only under a condition
+# ----------------------------------------------------------------------------
+
+
+class GArr:
+    """Array whose leading axis has a SYMBOLIC length: a concrete list of candidate rows, row i being present
+    iff its guard holds (rows keep their relative order).  Produced when two branches of an `if` differ only
+    by rows appended to an array (state merging); consumed by `for row in ...` and np.vstack."""
+
+    def __init__(self, rows, row_shape, kind="f"):
+        self.rows = list(rows)  # [(guard, SArr of row_shape)]
+        self.row_shape = tuple(row_shape)
+        self.kind = kind
+
+    def clone(self, memo):
+        from .symexec import clone_val
+
+        return GArr([(g, clone_val(r, memo)) for g, r in self.rows], self.row_shape, self.kind)
+
+    @staticmethod
+    def of(x):
+        if isinstance(x, GArr):
+            return x
+        x = as_arr(x)
+        return GArr([(True, SArr(x.a[i].copy() if isinstance(x.a[i], _np.ndarray) else _np.array(x.a[i], dtype=object), x.kind)) for i in range(x.shape[0])],
+                    x.shape[1:], x.kind)
+
+    def __repr__(self):
+        return "GArr(%d rows of %s)" % (len(self.rows), self.row_shape)
+
+
+def same_elems(a, b):
+    fa, fb = a.flat(), b.flat()
+    if len(fa) != len(fb):
+        return False
+    for x, y in zip(fa, fb):
+        if x is y:
+            continue
+        if isz(x) and isz(y) and x.eq(y):
+            continue
+        if not isz(x) and not isz(y) and type(x) == type(y) and x == y:
+            continue
+        return False
+    return True
